@@ -115,6 +115,7 @@ def atlas_schema() -> Schema:
         [
             M("pt", "num"), M("eta", "num"), M("phi", "num"), M("m", "num"),
             M("nTrk", "num", "int", declared=True),
+            M("nRaw", "num", "int", declared=True, tree_type="double"),
             M("isGood", "num", "bool", declared=True),
             M("emf", "num", "float", declared=True),
             M("weights", "vec", "float", declared=True),
@@ -176,6 +177,7 @@ def _cms_classes(muon: str, electron: str, trackref: str, gsfref: str) -> Dict[s
          M("isPFIsolationValid", "num", "bool", default=True),
          M("pfIsolationR04", "obj", cls="reco::MuonPFIsolation", ptr=0, default=True),
          M("nSeg", "num", "int", declared=True),
+         M("nRaw", "num", "int", declared=True, tree_type="double"),
          M("chi2s", "vec", "float", declared=True),
          M("segments", "vec", "double", ptr=1, declared=True),
          ] + _echo_methods(),
